@@ -270,9 +270,10 @@ def check (P : Params) (f : Frame) : Except Err Bytes :=
 
 /-- How `SetupServer` treats the body of an upload that declares `Content-Encoding: aws-chunked`.
 `authOn`: credentials are configured, so `MakeSignatureMiddleware` is installed and (for an
-authenticated request) replaces the body by the decoder. `decoderWhenAuthOff`: behaviour after
-fixes/C30-decode-aws-chunked-without-auth.patch (framing-only decoder when nothing verifies
-signatures); the unchanged tree has `false` and stores the body verbatim. -/
+authenticated request) replaces the body by the verifying decoder. `decoderWhenAuthOff`: without
+credentials `MakeAwsChunkedDecodingMiddleware` installs a framing-only decoder — `true` for the
+tree since /repo c8f3b44 (fixes/C30-decode-aws-chunked-without-auth.patch); `false` is the tree
+before it, which stored the body verbatim. -/
 def storedBody (authOn decoderWhenAuthOff : Bool) (P : Params) (wire : Bytes) : Except Err Bytes :=
   if authOn then decode P wire
   else if decoderWhenAuthOff then decode { P with skipValidation := true, trailerSigned := false } wire
